@@ -3,6 +3,6 @@
 set -e
 D=$(mktemp -d /tmp/ebusd-baseline-XXXXXX)
 trap 'rm -rf "$D"' EXIT
-cmake -G Ninja -S /repo -B "$D" -DCMAKE_BUILD_TYPE=RelWithDebInfo >/dev/null
+cmake -G Ninja -S /repo -B "$D" -DCMAKE_BUILD_TYPE=RelWithDebInfo -DBUILD_TESTING=ON >/dev/null
 cmake --build "$D" >/dev/null
 ctest --test-dir "$D" -j8 --timeout 900 --output-junit "$D/junit.xml"
